@@ -5,6 +5,7 @@ package main
 import (
 	"fmt"
 	"go/token"
+	"go/types"
 	"strings"
 
 	"golang.org/x/tools/go/ssa"
@@ -735,6 +736,83 @@ func sameFinalNode(base, node ssa.Value) bool {
 	return found
 }
 
+// positionOnlyResults: in the iterator method cal every branch condition, and every returned value at the result
+// positions in used, is computed from the receiver's idx, len(*data) and constants alone.
+func positionOnlyResults(cal *ssa.Function, fIdx, fData *types.Var, used []int, depth int) bool {
+	if depth > 2 || cal.Blocks == nil {
+		return false
+	}
+	recv := cal.Params[0]
+	var pos func(v ssa.Value, d int) bool
+	pos = func(v ssa.Value, d int) bool {
+		if d > 8 {
+			return false
+		}
+		switch x := v.(type) {
+		case *ssa.Const:
+			return true
+		case *ssa.BinOp:
+			return pos(x.X, d+1) && pos(x.Y, d+1)
+		case *ssa.Phi:
+			for _, e := range x.Edges {
+				if !pos(e, d+1) {
+					return false
+				}
+			}
+			return true
+		case *ssa.UnOp:
+			if x.Op == token.NOT || x.Op == token.SUB {
+				return pos(x.X, d+1)
+			}
+			if x.Op == token.MUL {
+				if b, ok := loadOfField(x, fIdx); ok && b == ssa.Value(recv) {
+					return true
+				}
+			}
+			return false
+		case *ssa.Call:
+			if calleeName(x) == "builtin:len" && len(x.Call.Args) == 1 {
+				if l2, ok := x.Call.Args[0].(*ssa.UnOp); ok && l2.Op == token.MUL {
+					if b, ok := loadOfField(l2.X, fData); ok && b == ssa.Value(recv) {
+						return true
+					}
+				}
+				return false
+			}
+			if c2 := staticCallee(x); c2 != nil && len(x.Call.Args) > 0 && x.Call.Args[0] == ssa.Value(recv) && c2.Signature.Recv() != nil && c2.Signature.Results().Len() == 1 {
+				return positionOnlyResults(c2, fIdx, fData, []int{0}, depth+1)
+			}
+			return false
+		case *ssa.Extract:
+			if c, ok := x.Tuple.(*ssa.Call); ok {
+				if c2 := staticCallee(c); c2 != nil && len(c.Call.Args) > 0 && c.Call.Args[0] == ssa.Value(recv) && c2.Signature.Recv() != nil {
+					return positionOnlyResults(c2, fIdx, fData, []int{x.Index}, depth+1)
+				}
+			}
+			return false
+		}
+		return false
+	}
+	ok := true
+	eachInstr(cal, func(in ssa.Instruction) {
+		switch x := in.(type) {
+		case *ssa.If:
+			if !pos(x.Cond, 0) {
+				ok = false
+			}
+		case *ssa.Return:
+			for _, i := range used {
+				if i >= len(x.Results) || !pos(x.Results[i], 0) {
+					ok = false
+				}
+			}
+		case *ssa.Store, *ssa.MapUpdate, *ssa.Go, *ssa.Defer, *ssa.Panic:
+			ok = false
+		}
+	})
+	return ok
+}
+
 // R03.6: the iterator hands tokens out verbatim, in order, and Next is absorbing at the end.
 func rC03Iterator(w *World, r *Report) {
 	ru := r.Rule("R03.6", "sliceiterator: Value/PeekNextValue return the element at idx / idx+1 of the backing slice unmodified; Next advances idx by exactly one and is absorbing at the end; only Next and Reset write idx; the library never calls Reset", 5)
@@ -804,6 +882,27 @@ func rC03Iterator(w *World, r *Report) {
 				if calleeName(x) == "builtin:len" && len(x.Common().Args) == 1 {
 					if l2, ok := x.Common().Args[0].(*ssa.UnOp); ok && l2.Op == token.MUL {
 						_, good = loadOfField(l2.X, fData)
+					}
+				}
+				if !good {
+					// a sibling accessor whose answer (the results the caller looks at) is itself decided from the
+					// position and the length alone
+					if cal := staticCallee(x); cal != nil && cal != fn && len(cal.Params) > 0 && cal.Signature.Recv() != nil && types.Identical(cal.Signature.Recv().Type(), fn.Signature.Recv().Type()) {
+						var used []int
+						if v, isVal := x.(ssa.Value); isVal && v.Referrers() != nil {
+							for _, ref := range *v.Referrers() {
+								switch e := ref.(type) {
+								case *ssa.Extract:
+									if e.Referrers() != nil && len(*e.Referrers()) > 0 {
+										used = append(used, e.Index)
+									}
+								case *ssa.DebugRef:
+								default:
+									used = append(used, 0)
+								}
+							}
+						}
+						good = positionOnlyResults(cal, fIdx, fData, used, 0)
 					}
 				}
 				if !good {
